@@ -184,7 +184,9 @@ class DeviceBase(Entity):
     def _is_present(self) -> bool:
         """Try to exclude ghost devices (as caused by corrupt packet addresses)."""
         return any(
-            m.src == self for m in self._msgs.values() if not m._expired
+            m.src == self
+            for m in self._msg_db  # not _msgs: it has only the newest msg of each code
+            if m.verb in (I_, RP) and not m._expired
         )  # TODO: needs addressing
 
     @property
